@@ -11,7 +11,7 @@ ID = "C20"
 LEVEL = "exploration"
 RULE = ("two (quick) / three (thorough) groups of 3 identical files; every subset of the droppable members locked by a "
         "foreign process holding fcntl write locks or read (shared) locks x op {remove, link, link --soft, dedupe, "
-        "move} x {default, --no-lock}. Oracle: locked members keep inode, bytes and path and are named in a warning; "
+        "move, move to a directory on another mount point known to fclones (loop-mounted ext4 image)} x {default, --no-lock}. Oracle: locked members keep inode, bytes and path and are named in a warning; "
         "every other droppable member is processed; with --no-lock every droppable member is processed. "
         "Non-trivial = at least one member locked; distinct by (subset, lock type, op, flag).")
 ASSUMPTIONS = ["for `dedupe` on a file system without reflink support only 'locked members untouched' can be checked",
@@ -50,7 +50,7 @@ def cases(tier, seed):
     for mode in ("write", "read"):
         for r in range(len(droppable) + 1):
             for sub in itertools.combinations(droppable, r):
-                for op in ("remove", "link", "softlink", "dedupe", "move"):
+                for op in ("remove", "link", "softlink", "dedupe", "move", "move_other_mount"):
                     for nolock in (False, True):
                         out.append({"ngroups": ng, "locked": list(sub), "mode": mode, "op": op, "no_lock": nolock,
                                     "droppable": droppable})
@@ -73,7 +73,22 @@ def evaluate(case):
                 if holder.stdout.readline().strip() != b"ready":
                     raise C.MachineryError("lock holder failed")
             target = os.path.join(sc.root, "moved")
-            r = D.run_dedupe(sc, case["op"], ["--no-lock"] if case["no_lock"] else [], report, target=target)
+            op = case["op"]
+            loop = None
+            if op == "move_other_mount":
+                # a target on a mount point that fclones' own mount table knows (tmpfs is invisible to it):
+                # `move` then copies and deletes instead of renaming
+                if not C.can_loop_mount():
+                    return {"violations": [], "nontrivial": None, "outcome": "skipped_no_loop_mount"}
+                loop = C.LoopMount(os.path.join(C.EXT4, "fcv.%d.c20loop" % os.getpid()))
+                loop.__enter__()
+                target = os.path.join(loop.mp, "moved")
+                op = "move"
+            try:
+                r = D.run_dedupe(sc, op, ["--no-lock"] if case["no_lock"] else [], report, target=target)
+            finally:
+                if loop:
+                    loop.__exit__()
         finally:
             if holder:
                 holder.stdin.close()
